@@ -33,6 +33,7 @@ func C14(c *core.Ctx) {
 	c14NilElems(c)
 	c14NilPointers(c)
 	c14DocNilElems(c)
+	c14NilMapWrites(c)
 	c14Assertions(c)
 	// R13: the rate-row matching predicates dereference no nil percentage or surcharge on any
 	// combination of present/absent members (the truth table of C02-R1 records such a use)
